@@ -256,7 +256,7 @@ func runGCPropagates(p *Program, r *RuleResult) {
 					view := p.View(fn)
 					cont := view.mayReachFrom(mk, nil, func(in ssa.Instruction) bool {
 						c, ok := in.(ssa.CallInstruction)
-						return ok && c.Common().StaticCallee() != nil && c.Common().StaticCallee().Name() == "transitionLoop"
+						return ok && p.isTransitionLoop(c.Common().StaticCallee())
 					}, nil)
 					if len(cont) > 0 && view.passedBefore(cont[0], func(in ssa.Instruction) bool { return in == ssa.Instruction(mk) }) {
 						okA = true
@@ -322,7 +322,7 @@ func runGCPropagates(p *Program, r *RuleResult) {
 		}
 		term := false
 		for _, c := range p.callsIn(h) {
-			if sc := c.Common().StaticCallee(); sc != nil && sc.Name() == "terminate" {
+			if sc := c.Common().StaticCallee(); sc != nil && p.countsDeath(sc) {
 				term = true
 			}
 		}
